@@ -5,7 +5,7 @@ from enum import Enum
 from abc import ABC, abstractmethod
 from typing import List, Union, Set, Optional
 
-from .tokens import DECORATION_SEPARATOR, Token, TOKEN_SEPARATOR
+from .tokens import DECORATION_SEPARATOR, Token, TOKEN_SEPARATOR, ChordToken, EMPTY_TOKEN
 from .gkern import pitch_to_gkern_string, ClefFactory
 from .transposer import AgnosticPitch, PitchImporterFactory
 
@@ -192,11 +192,18 @@ class BekernTokenizer(Tokenizer):
         if DECORATION_SEPARATOR not in ekern_content:
             return ekern_content
 
-        reduced_content = ekern_content.split(DECORATION_SEPARATOR)[0]  # Discard all decoration tokens
-        if reduced_content.endswith(TOKEN_SEPARATOR):
-            reduced_content = reduced_content[:-1] # Remove the last TOKEN_SEPARATOR if it exists
+        # Discard the decoration tokens of every note of a chord separately, so no chord note is lost
+        notes = ekern_content.split(' ') if isinstance(token, ChordToken) else [ekern_content]
+        reduced_notes = []
+        for note in notes:
+            reduced_content = note.split(DECORATION_SEPARATOR)[0]  # Discard all decoration tokens
+            if reduced_content.endswith(TOKEN_SEPARATOR):
+                reduced_content = reduced_content[:-1] # Remove the last TOKEN_SEPARATOR if it exists
+            if len(notes) > 1 and len(reduced_content) == 0:
+                reduced_content = EMPTY_TOKEN  # a chord note left empty keeps its place
+            reduced_notes.append(reduced_content)
 
-        return reduced_content
+        return ' '.join(reduced_notes)
 
 
 class BkernTokenizer(Tokenizer):
